@@ -110,7 +110,7 @@ def make_top(model, have_H=True, have_A=False, levy="space-time", halfway=False,
         "_have_H": have_H, "_have_A": have_A, "_levy_area_approximation": levy,
         "_size": SIZE, "_dtype": "dtype", "_device": "device",
         "_entropy": nf.sym("ENTROPY", True), "_pool_size": nf.sym("POOL", True),
-        "_halfway_tree": halfway, "_round": identity_round(),
+        "_halfway_tree": halfway, "_round": identity_round(), "_tol": Fraction(1, 2), "_dt": None, "_cache_size": Fraction(45),
     }
     attrs.update(extra or {})
     top = Obj("top", cls=None, attrs=attrs)
